@@ -814,8 +814,7 @@ def rule_bounds(repo, col):
     offsets = {}
     for n in body_walk(f):
         if isinstance(n, ast.Assign) and isinstance(n.targets[0], ast.Tuple) \
-                and isinstance(n.value, ast.Subscript) and \
-                const_str(n.value.slice) == 'shape':
+                and _is_shape_expr(repo, f, n.value):
             names = target_names(n.targets[0])
             if len(names) == 2:
                 dims[names[0]] = 0
@@ -946,6 +945,49 @@ def rule_bounds(repo, col):
               'dtype is not derived from the declared element type')
 
 
+def _is_shape_expr(repo, f, e, depth=0, whole=False):
+    """`e` denotes the declared shape (in its own order): the 'shape'
+    member read directly, through the generic getter, through a local, or
+    through a helper that returns it (whole, or as `(s[0], s[1])`)."""
+    if depth > 4 or e is None:
+        return False
+    if isinstance(e, ast.Subscript) and const_str(e.slice) == 'shape':
+        return True
+    if isinstance(e, ast.Name):
+        ds = [x.value for x in ast.walk(f) if isinstance(x, ast.Assign) and
+              len(x.targets) == 1 and isinstance(x.targets[0], ast.Name) and
+              x.targets[0].id == e.id]
+        return bool(ds) and all(_is_shape_expr(repo, f, d, depth + 1, whole)
+                                for d in ds)
+    if isinstance(e, ast.Call):
+        if any(const_str(a) == 'shape' for a in e.args):
+            return True
+        nm = e.func.attr if isinstance(e.func, ast.Attribute) else (
+            e.func.id if isinstance(e.func, ast.Name) else None)
+        for q2 in ('TableValidator.%s' % nm, nm):
+            if nm and repo.has_func(VAL, q2):
+                g = repo.func(VAL, q2)
+                rets = [r.value for r in ast.walk(g) if isinstance(
+                    r, ast.Return) and r.value is not None and not (
+                    isinstance(r.value, ast.Constant) and
+                    r.value.value is None)]
+                if not rets:
+                    return False
+
+                def ok(v):
+                    if isinstance(v, ast.Tuple) and len(v.elts) == 2:
+                        if whole:
+                            return False    # the first two entries only
+                        return all(isinstance(x, ast.Subscript) and
+                                   isinstance(x.slice, ast.Constant) and
+                                   x.slice.value == i and _is_shape_expr(
+                                       repo, g, x.value, depth + 1)
+                                   for i, x in enumerate(v.elts))
+                    return _is_shape_expr(repo, g, v, depth + 1, whole)
+                return all(ok(v) for v in rets)
+    return False
+
+
 def rule_shape_crosscheck(repo, col):
     """shape[0] is compared with the number of rows / observation ids,
     shape[1] with the number of columns / sample ids (JSON, dense data and
@@ -967,9 +1009,8 @@ def rule_shape_crosscheck(repo, col):
                         const_str(s.args[0].slice) in want:
                     key = const_str(s.args[0].slice)
                 if isinstance(s, ast.Subscript) and isinstance(
-                        s.value, ast.Subscript) and \
-                        const_str(s.value.slice) == 'shape' and \
-                        isinstance(s.slice, ast.Constant):
+                        s.slice, ast.Constant) and _is_shape_expr(
+                        repo, f, s.value):
                     dim = s.slice.value
             if key is not None and dim is not None:
                 seen[key] = (dim, n)
@@ -988,8 +1029,7 @@ def rule_shape_crosscheck(repo, col):
     dims = {}
     for n in body_walk(f):
         if isinstance(n, ast.Assign) and isinstance(n.targets[0], ast.Tuple) \
-                and isinstance(n.value, ast.Subscript) and \
-                const_str(n.value.slice) == 'shape':
+                and _is_shape_expr(repo, f, n.value):
             names = target_names(n.targets[0])
             dims = {names[0]: 0, names[1]: 1}
     rowvar = None
@@ -1025,8 +1065,7 @@ def rule_shape_crosscheck(repo, col):
     dims = {}
     for n in body_walk(f):
         if isinstance(n, ast.Assign) and isinstance(n.targets[0], ast.Tuple) \
-                and isinstance(n.value, ast.Subscript) and \
-                const_str(n.value.slice) == 'shape':
+                and _is_shape_expr(repo, f, n.value):
             names = target_names(n.targets[0])
             dims = {names[0]: 0, names[1]: 1}
     holders = {}
@@ -1245,3 +1284,45 @@ RULE_TEXT = {
     'SB-RECORDS': rule_records.__doc__,
     'AG-JSONKEYS': rule_json_keys.__doc__,
 }
+
+
+def rule_shape_is_pair(repo, col):
+    """AG-SHAPEPAIR: the validator constrains the *length* of the declared
+    shape: it is unpacked into exactly two names or its len() is compared
+    with 2 (reading `shape[0], shape[1]` accepts [2, 3, 9])."""
+    rule = 'AG-SHAPEPAIR'
+    q = 'TableValidator._valid_shape'
+    if not repo.has_func(VAL, q):
+        return
+    from .normalize import flat_view
+    f = flat_view(repo.mod(VAL).tree, VAL, repo.func(VAL, q))
+    funcs = [f]
+    # helpers of the class that the function calls
+    for c in ast.walk(f):
+        if isinstance(c, ast.Call) and isinstance(c.func, ast.Attribute) and \
+                dotted(c.func.value) == 'self' and repo.has_func(
+                VAL, 'TableValidator.%s' % c.func.attr):
+            funcs.append(repo.func(VAL, 'TableValidator.%s' % c.func.attr))
+    ok = False
+    for g in funcs:
+        for n in ast.walk(g):
+            if isinstance(n, ast.Assign) and isinstance(
+                    n.targets[0], ast.Tuple) and len(
+                    n.targets[0].elts) == 2 and _is_shape_expr(
+                    repo, g, n.value, whole=True):
+                ok = True
+            if isinstance(n, ast.Compare) and len(n.ops) == 1 and any(
+                    isinstance(x, ast.Call) and call_name(x) == 'len' and
+                    x.args and _is_shape_expr(repo, g, x.args[0], whole=True)
+                    for x in [n.left] + n.comparators) and any(
+                    isinstance(x, ast.Constant) and x.value == 2
+                    for x in [n.left] + n.comparators):
+                ok = True
+    col.check(ok, rule, VAL, q, 'length-constrained', f,
+              'the shape must have exactly two entries',
+              'nothing constrains the number of entries of the declared '
+              'shape (it is only subscripted): a shape such as [2, 3, 9] '
+              'is reported valid')
+
+
+RULE_TEXT['AG-SHAPEPAIR'] = rule_shape_is_pair.__doc__
